@@ -102,6 +102,14 @@ def check_sim(rep, pid, tier, seed):
         specs = specs_for(pid, tier, co)
         for spec in (specs if tier == "thorough" else rng.sample(specs, min(2, len(specs)))):
             lines.append(f"mrun {st} {co} {spec} {n_cycles} | {p}")
+    # long runs over many distinct block contents (the property: "every macro configuration reached
+    # in up to 10^4 macro steps"): 3- and 4-colour programs, 5- and 6-cell blocks
+    if pid == "C08":
+        for _ in range(1200 if tier == "thorough" else 240):
+            st, co = rng.choice([(2, 3), (2, 4), (3, 3)])
+            p = core.rand_prog(rng, st, co, p_undef=rng.choice([0.0, 0.0, 0.1]))
+            k = rng.choice([5, 6] if co == 4 else [6])
+            lines.append(f"mrun {st} {co} block:{k} {10000 if tier == 'thorough' else 2500} | {p}")
     # a few long runs of named machines
     for p in core.NAMED[:8]:
         st, co = M.dims(p)
@@ -111,7 +119,11 @@ def check_sim(rep, pid, tier, seed):
     impl = core.run_harness(lines)
     model = core.run_driver(lines)
     mism = diff_streams(rep, lines, impl, model)
-    res = judge_runs(lines, impl, tier=tier)
+    # decoding 10^3..10^4 configurations per run is the expensive part: every short run is judged,
+    # of the long ones every eighth - and every run on which the real code and the model disagree
+    long_ = [l for l in lines if int(l.split(" | ")[0].split(" ")[4]) >= 1000]
+    only = (set(lines) - set(long_)) | set(long_[::8]) | {m["case"] for m in mism}
+    res = judge_runs(lines, impl, only=only, tier=tier)
     bad = [l for l, (v, _) in res.items() if v == "bad"]
     # attribution to F3 (backsymbol split index): same case under the repaired model
     known = 0
